@@ -1502,3 +1502,223 @@ Qed.
 (* a failed command writes nothing: there is no document to speak of *)
 Theorem cmd_failed_no_doc lib_ok v u : cmd lib_ok v u = Failed -> forall d, cmd lib_ok v u <> Wrote d.
 Proof. intros H d H'. rewrite H in H'. discriminate. Qed.
+
+(* ------------------------------------------------------------------ *)
+(* decidable forms of the hypotheses (also evaluated on generated universes by the checks) *)
+
+Fixpoint nodup_keys_b (l : list key) : bool :=
+  match l with [] => true | x :: t => negb (mem key_eqb x t) && nodup_keys_b t end.
+
+Lemma nodup_keys_b_spec l : nodup_keys_b l = true -> NoDup l.
+Proof.
+  induction l as [|x l IH]; simpl; intros H; [constructor|].
+  apply andb_true_iff in H. destruct H as [H1 H2]. constructor; auto.
+  apply negb_true_iff in H1. apply mem_key_false in H1. exact H1.
+Qed.
+
+Definition universe_ok_b (u : universe) : bool :=
+  nodup_keys_b (map decl_key (u_decls u)) &&
+  forallb (fun r => forallb (declared_key u) (route_refs r) &&
+                    forallb (fun p => texpr_ok (rp_type p)) (r_params r) &&
+                    match r_ret r with Some t => texpr_ok t | None => true end) (all_routes_u u) &&
+  forallb (fun d => forallb (declared_key u) (decl_refs d) &&
+                    forallb (fun f => negb (visible f) || texpr_ok (f_type f)) (struct_fields d)) (u_decls u).
+
+Lemma universe_ok_b_sound u : universe_ok_b u = true -> universe_ok u.
+Proof.
+  unfold universe_ok_b. rewrite !andb_true_iff. intros [[H1 H2] H3].
+  rewrite forallb_forall in H2, H3. split; [|split].
+  - apply nodup_keys_b_spec. exact H1.
+  - intros r Hr. specialize (H2 r Hr). rewrite !andb_true_iff in H2. destruct H2 as [[A B] C].
+    rewrite forallb_forall in A, B. split; [|split].
+    + intros k Hk. apply declared_key_in. auto.
+    + auto.
+    + intros t E. rewrite E in C. exact C.
+  - intros d Hd. specialize (H3 d Hd). rewrite andb_true_iff in H3. destruct H3 as [A B].
+    rewrite forallb_forall in A, B. split.
+    + intros k Hk. apply declared_key_in. auto.
+    + intros f Hf Hv. specialize (B f Hf). rewrite Hv in B. exact B.
+Qed.
+
+Definition well_linked_b (v : dialect) (u : universe) : bool :=
+  universe_ok_b u && quiet u &&
+  forallb (fun cr => route_linked (fst cr) (snd cr) &&
+                     unique_params (map mk_dparam (filter in_url (r_params (snd cr))))) (shown_routes u) &&
+  forallb (enum_decl_ok v) (u_decls u).
+
+Lemma well_linked_b_sound v u : well_linked_b v u = true -> well_linked v u.
+Proof.
+  unfold well_linked_b. rewrite !andb_true_iff. intros [[[A B] C] D].
+  rewrite forallb_forall in C, D. split; [apply universe_ok_b_sound; auto|]. split; auto. split.
+  - intros c r H. specialize (C (c, r) H). apply andb_true_iff in C. exact C.
+  - auto.
+Qed.
+
+Definition unique_type_names_b (u : universe) : bool := nodup_b (expected_names u).
+
+Lemma unique_type_names_b_spec u : unique_type_names_b u = true <-> unique_type_names u.
+Proof. apply nodup_b_spec. Qed.
+
+(* ------------------------------------------------------------------ *)
+(* witnesses *)
+
+Local Open Scope string_scope.
+Local Open Scope list_scope.
+
+Definition Tstr : texpr := TPrim (s "string").
+Definition Tint : texpr := TPrim (s "int").
+
+Definition fld (n : String.string) (j : option String.string) (v : String.string) (t : texpr) : field :=
+  mkField (s n) false (option_map s j) (s v) t.
+
+Definition emb (n : String.string) (t : texpr) : field := mkField (s n) true None [] t.
+
+Definition demo_cfg : dconfig :=
+  mkDConfig (s "API") (s "1.2.3") (s "https://api.example.com")
+            [mkScheme (s "sec1") (s "apiKey") (s "header") (s "x-sec1")] None.
+
+Definition ty (n : String.string) : texpr := TNamed (s "types") (s n).
+
+Definition demo_decls : list decl :=
+  [ mkDecl (s "types") (s "Base") (DStruct [fld "ID" (Some "id") "required" Tstr]);
+    mkDecl (s "types") (s "Node")
+           (DStruct [ emb "Base" (ty "Base");
+                      fld "Label" (Some "label,omitempty") "" Tstr;
+                      fld "Next" (Some "next") "" (TPtr (ty "Node"));
+                      fld "Kids" (Some "kids") "required" (TSlice (ty "Node"));
+                      fld "Col" (Some "col") "required" (ty "Color");
+                      fld "K" None "" (ty "Kind");
+                      fld "raw" None "" Tint;
+                      fld "Skip" (Some "-") "" Tstr;
+                      fld "Ext" (Some "ext") "" (TNamed (s "other") (s "Far"));
+                      fld "Tags" None "" (TMap Tstr Tstr);
+                      fld "Mail" (Some ",omitempty") "email" Tstr ]);
+    mkDecl (s "types") (s "Color") (DEnum (s "string") [(s "Red", s "red"); (s "Blue", s "blue"); (s "Green", s "green")]);
+    mkDecl (s "types") (s "Kind") (DEnum (s "int") [(s "K1", s "1"); (s "K2", s "2"); (s "K10", s "10")]);
+    mkDecl (s "types") (s "Name") (DAlias Tstr);
+    mkDecl (s "types") (s "Unused") (DStruct [fld "X" None "" Tint]);
+    mkDecl (s "other") (s "Far") (DStruct [fld "Z" (Some "z") "" (TPrim (s "float32"))]) ].
+
+Definition demo_routes : list route :=
+  [ mkRoute (s "A") (s "POST") (s "/a") false
+            [mkRParam (s "body") LBody None (ty "Node") None]
+            (Some Tstr) None [(404%N, s "nf")] [];
+    mkRoute (s "B") (s "GET") (s "/b/{id}") false
+            [mkRParam (s "id") LPath None Tstr None; mkRParam (s "e") LQuery None (ty "Kind") None]
+            (Some (ty "Name")) None [] [] ].
+
+Definition demo_u : universe :=
+  mkUniverse demo_cfg demo_decls [mkCtrl (s "Ctl") (s "/c") [] demo_routes].
+
+Definition demo_doc : doc := match emit V31 demo_u with Some d => d | None => mkDoc [] [] [] [] [] [] end.
+
+Lemma demo_reach :
+  map snd (reach demo_u) = [s "Node"; s "Kind"; s "Name"; s "Base"; s "Color"; s "Far"] /\
+  reach_n demo_u 3 = reach demo_u /\ List.length (roots demo_u) = 3.
+Proof. vm_compute. repeat split. Qed.
+
+Lemma demo_hyps :
+  well_linked V31 demo_u /\ unique_type_names demo_u /\ universe_ok demo_u /\ quiet demo_u = true /\
+  ~ well_linked_b V30 demo_u = true.
+Proof.
+  split; [apply well_linked_b_sound; vm_compute; reflexivity|].
+  split; [apply unique_type_names_b_spec; vm_compute; reflexivity|].
+  split; [apply universe_ok_b_sound; vm_compute; reflexivity|].
+  split; [vm_compute; reflexivity|]. vm_compute. discriminate.
+Qed.
+
+Lemma demo_doc_facts :
+  emit V31 demo_u = Some demo_doc /\
+  keys (doc_comps demo_doc) = [s "Kind"; s "Color"; s "Base"; s "Far"; s "Node"; s "Rfc7807Error"; s "Name"] /\
+  prop_C07 demo_u demo_doc = true /\ prop_C08 (u_cfg demo_u) demo_doc = true /\
+  (* the oracles reject damaged documents *)
+  prop_C07 demo_u (mkDoc (doc_title demo_doc) (doc_version demo_doc) (doc_servers demo_doc) (doc_schemes demo_doc)
+                         (doc_ops demo_doc) (tl (doc_comps demo_doc))) = false /\
+  wf (mkDoc (doc_title demo_doc) (doc_version demo_doc) (doc_servers demo_doc) (doc_schemes demo_doc)
+            (doc_ops demo_doc) (tl (doc_comps demo_doc))) = false /\
+  lookup (doc_comps demo_doc) (s "Node") = Some (component V31 (nth 1 demo_decls (mkDecl [] [] (DAlias Tstr)))).
+Proof. vm_compute. repeat split. Qed.
+
+(* F6: the controller's route has a parameter the method never declares *)
+Definition f6_u : universe :=
+  mkUniverse demo_cfg []
+    [mkCtrl (s "Ctl") (s "/users/{tenant}") []
+       [mkRoute (s "A") (s "GET") (s "/plain") false [mkRParam (s "id") LPath None Tstr None]
+                (Some Tstr) None [] []]].
+
+Lemma f6_refuted :
+  gleece_accepts f6_u = true /\
+  exists d, cmd (lib_model_ok_v V30) V30 f6_u = Wrote d /\ wf d = false /\
+            failed_clauses (u_cfg f6_u) d = [2] /\
+            map (fun o => (dop_path o, map op_name (dop_params o))) (doc_ops d) =
+              [(s "/users/{tenant}/plain", [s "id"])].
+Proof.
+  split; [vm_compute; reflexivity|].
+  eexists. split; [vm_compute; reflexivity|]. vm_compute. repeat split.
+Qed.
+
+(* F16: two declarations with the same bare name collapse into one component *)
+Definition f16_u : universe :=
+  mkUniverse demo_cfg
+    [ mkDecl (s "m1") (s "User") (DStruct [fld "A" (Some "a") "" Tstr]);
+      mkDecl (s "m2") (s "User") (DStruct [fld "B" (Some "b") "" Tint]) ]
+    [mkCtrl (s "Ctl") [] []
+       [mkRoute (s "A") (s "GET") (s "/a") false [] (Some (TNamed (s "m1") (s "User"))) None [] [];
+        mkRoute (s "B") (s "GET") (s "/b") false [] (Some (TNamed (s "m2") (s "User"))) None [] []]].
+
+Lemma f16_refuted :
+  exists t, components V31 f16_u = Some t /\ universe_ok f16_u /\
+            List.length (reached_decls f16_u) = 2 /\ keys t = [s "User"; s "Rfc7807Error"] /\
+            ~ Permutation (keys t) (expected_names f16_u).
+Proof.
+  eexists. split; [vm_compute; reflexivity|].
+  split; [apply universe_ok_b_sound; vm_compute; reflexivity|].
+  split; [vm_compute; reflexivity|]. split; [vm_compute; reflexivity|].
+  intros P. apply Permutation_length in P. vm_compute in P. discriminate.
+Qed.
+
+(* F9: a oneof tag at one usage site rewrites the shared enum component (3.0 only) *)
+Definition f9_decls (tag : String.string) : list decl :=
+  [ mkDecl (s "types") (s "Color") (DEnum (s "string") [(s "Red", s "red"); (s "Blue", s "blue"); (s "Green", s "green")]);
+    mkDecl (s "types") (s "Pal") (DStruct [fld "Col" (Some "col") tag (ty "Color")]) ].
+
+Definition f9_u (tag : String.string) : universe :=
+  mkUniverse demo_cfg (f9_decls tag)
+    [mkCtrl (s "Ctl") [] []
+       [mkRoute (s "A") (s "GET") (s "/a") false [] (Some (ty "Pal")) None [] []]].
+
+Definition color_decl : decl := nth 0 (f9_decls "") (mkDecl [] [] (DAlias Tstr)).
+
+Lemma f9_refuted :
+  exists t t', components V30 (f9_u "oneof=red blue") = Some t /\ components V30 (f9_u "") = Some t' /\
+    unique_type_names (f9_u "oneof=red blue") /\ unique_type_names (f9_u "") /\
+    In color_decl (reached_decls (f9_u "oneof=red blue")) /\ In color_decl (reached_decls (f9_u "")) /\
+    lookup t (s "Color") <> lookup t' (s "Color") /\
+    option_map k_enum (lookup t (s "Color")) = Some (Some [EStr (s "red"); EStr (s "blue")]) /\
+    (* 3.1 is not affected *)
+    components V31 (f9_u "oneof=red blue") = components V31 (f9_u "").
+Proof.
+  eexists. eexists. split; [vm_compute; reflexivity|]. split; [vm_compute; reflexivity|].
+  split; [apply unique_type_names_b_spec; vm_compute; reflexivity|].
+  split; [apply unique_type_names_b_spec; vm_compute; reflexivity|].
+  split; [vm_compute; auto|]. split; [vm_compute; auto|].
+  split; [vm_compute; discriminate|]. split; vm_compute; reflexivity.
+Qed.
+
+(* F18: 3.0 writes the values of a non-string enum as strings *)
+Lemma f18_refuted :
+  well_linked V31 demo_u /\
+  exists d, emit V30 demo_u = Some d /\ wf d = false /\ failed_clauses (u_cfg demo_u) d = [5] /\
+            option_map k_enum (lookup (doc_comps d) (s "Kind")) = Some (Some [EStr (s "1"); EStr (s "2"); EStr (s "10")]).
+Proof.
+  split; [apply demo_hyps|]. eexists. split; [vm_compute; reflexivity|]. vm_compute. repeat split.
+Qed.
+
+(* the field-type mapping agrees with Model/Spec.v's schema_of on the type strings of map-free types *)
+Lemma schema_of_agrees :
+  forallb (fun t => schema_eqb (schema_of (type_string t)) (schema_of_texpr t))
+          [ Tstr; Tint; TPrim (s "bool"); TPrim (s "float64"); TPrim (s "uint8"); TPrim (s "any"); TTime;
+            TSlice (TPrim (s "byte")); TSlice (TSlice (TPrim (s "byte"))); ty "Node"; TPtr (ty "Node");
+            TSlice (ty "Node"); TSlice (TPtr (ty "Node")); TSlice (TSlice Tint); TPtr (TSlice TTime);
+            TNamed (s "other") (s "Far") ] = true.
+Proof. vm_compute. reflexivity. Qed.
